@@ -233,7 +233,7 @@ def run_sorting(ctx):
         b = arg.value if isinstance(arg, ast.Attribute) else None
         return access_path(b) if b is not None else None
     a0n, a1n = member_name(cs.value.args[0]), member_name(cs.value.args[1])
-    if a0n is None or a1n is None or "[" in a0n or "[" in a1n:
+    if a0n is None or a1n is None or a0n == a1n:
         ctx.inconclusive("R1", C, where(mod, inner), "the two members of the pair are not bound to names", key="pair-compare")
         return
     pvar, qvar = (a0n, a1n) if first_is_outer else (a1n, a0n)
